@@ -35,16 +35,16 @@ Print Assumptions C03_skip_stable.
 
 (* the fixed point: after a successful run, the immediate re-run plans Skip for every selected entry
    (every mode except --ignore-times) *)
-Theorem C03_rerun_plans_skip : forall refuse ds c now U src dst,
+Theorem C03_rerun_plans_skip : forall refuse ds c now U keep src dst,
   src_wf src -> c_dry_run c = false -> c_ignore_times c = false -> dst [] = None ->
   (forall e, In e src -> se_is_dir e = true -> forall cc s t, dst (se_path e) <> Some (File cc s t)) ->
   (forall e, In e src -> se_is_dir e = false -> dst (se_path e) <> Some Dir) ->
-  let r := run refuse ds c now U src dst in
+  let r := run refuse ds c now U keep src dst in
   r_refused r = false -> r_errors r = [] ->
   forall e, In e src -> t_action (plan_entry c ds (r_fs r) e) = ASkip.
 Proof.
-  intros refuse ds c now U src dst Hwf Hdry Hit Hroot Hnf Hnd2 r Href Herr e He.
-  destruct (run_post refuse ds c now U src dst Hwf Hdry Hroot Hnf Hnd2 Href Herr e He) as (x & Hx & Hg).
+  intros refuse ds c now U keep src dst Hwf Hdry Hit Hroot Hnf Hnd2 r Href Herr e He.
+  destruct (run_post refuse ds c now U keep src dst Hwf Hdry Hroot Hnf Hnd2 Href Herr e He) as (x & Hx & Hg).
   fold r in Hx. unfold good in Hg. destruct (se_is_dir e) eqn:Hd.
   - subst x. apply C03_dir_then_skip; assumption.
   - destruct (needs c ds dst e) eqn:En.
@@ -54,23 +54,24 @@ Proof.
 Qed.
 Print Assumptions C03_rerun_plans_skip.
 
-(* ... and with --delete the re-run has nothing left to delete: the first run left an exact mirror *)
-Theorem C03_rerun_plans_no_deletion : forall refuse ds c now U src dst,
+(* ... and with --delete the re-run has nothing left to delete, under any filter: what the first run left has a counterpart in the source scan *)
+Theorem C03_rerun_plans_no_deletion : forall refuse ds c now U keep src dst,
   src_wf src -> c_dry_run c = false -> c_delete c = true -> dst [] = None ->
   (forall e, In e src -> se_is_dir e = true -> forall cc s t, dst (se_path e) <> Some (File cc s t)) ->
   (forall e, In e src -> se_is_dir e = false -> dst (se_path e) <> Some Dir) ->
-  let r := run refuse ds c now U src dst in
+  let r := run refuse ds c now U keep src dst in
   r_refused r = false -> r_errors r = [] ->
-  plan_deletions src (filter (fun p => match r_fs r p with Some _ => true | None => false end) U) = [].
+  plan_deletions (keep ++ src) (filter (fun p => match r_fs r p with Some _ => true | None => false end) U) = [].
 Proof.
-  intros refuse ds c now U src dst Hwf Hdry Hdel Hroot Hnf Hnd2 r Href Herr.
+  intros refuse ds c now U keep src dst Hwf Hdry Hdel Hroot Hnf Hnd2 r Href Herr.
   unfold plan_deletions. destruct (filter _ (filter _ U)) as [|q l] eqn:E; [reflexivity|]. exfalso.
   assert (Hq : In q (q :: l)) by (left; reflexivity). rewrite <- E in Hq. apply filter_In in Hq. destruct Hq as [Hq Hn].
   apply filter_In in Hq. destruct Hq as [HqU Hs].
-  assert (Hin : In q (paths_of src)).
-  { apply (mirror refuse ds c now U src dst Hwf Hdry Hdel Hroot Hnf Hnd2 Href Herr q HqU). fold r. destruct (r_fs r q); [discriminate | discriminate]. }
-  apply negb_true_iff in Hn. unfold paths_of in Hin. apply in_map_iff in Hin. destruct Hin as (e & Ee & He).
-  assert (existsb (fun e0 => peqb (se_path e0) q) src = true) by (apply existsb_exists; exists e; split; [exact He | apply peqb_eq; exact Ee]). congruence.
+  assert (Hgone : r_fs r q = None).
+  { apply (stale_removed refuse ds c now U keep src dst Hwf Hdry Hdel Hroot Href Herr q HqU).
+    intro Hin. apply negb_true_iff in Hn. unfold paths_of in Hin. apply in_map_iff in Hin. destruct Hin as (e & Ee & He).
+    assert (existsb (fun e0 => peqb (se_path e0) q) (keep ++ src) = true) by (apply existsb_exists; exists e; split; [exact He | apply peqb_eq; exact Ee]). congruence. }
+  rewrite Hgone in Hs. discriminate.
 Qed.
 Print Assumptions C03_rerun_plans_no_deletion.
 
@@ -79,5 +80,5 @@ Example C03_big_update_then_skip :
   let c := mk_cfg false false 50 false false false false 100 100 in
   let e := mk_sentry [1%N] false 200 1000%Z 7 false in
   let dst : fs := fun p => if peqb p [1%N] then Some (File 8 150 500%Z) else None in
-  t_action (plan_entry c (fun _ => (0%N, 0%Z)) (r_fs (run (fun _ _ _ => false) (fun _ => (0%N, 0%Z)) c 9000%Z [[1%N]] [e] dst)) e) = ASkip.
+  t_action (plan_entry c (fun _ => (0%N, 0%Z)) (r_fs (run (fun _ _ _ => false) (fun _ => (0%N, 0%Z)) c 9000%Z [[1%N]] [] [e] dst)) e) = ASkip.
 Proof. vm_compute. reflexivity. Qed.
